@@ -4,6 +4,7 @@ import (
 	"fmt"
 	"go/types"
 	"math/big"
+	"regexp"
 	"strings"
 )
 
@@ -51,6 +52,7 @@ type Value struct {
 	A                  *Addr
 	Ty                 types.Type
 	Clo                *Closure
+	Orig               types.Type // pointer type before a conversion through unsafe.Pointer
 }
 
 func (v Value) String() string {
@@ -134,8 +136,15 @@ func typeKey(t types.Type) string {
 		path = strings.TrimPrefix(path, "rare/")
 		return path
 	})
-	return s
+	return aliasRe.ReplaceAllStringFunc(s, func(m string) string {
+		if m == "byte" {
+			return "uint8"
+		}
+		return "int32"
+	})
 }
+
+var aliasRe = regexp.MustCompile(`\b(byte|rune)\b`)
 
 // intRange returns the value range of an integer type.
 func intRange(t types.Type) (lo, hi *big.Int, ok bool) {
